@@ -134,8 +134,9 @@ def autocorr_1d_int(data, nodata):
     ny = int64(0)  # number of valid Yi
 
     for i in range(N):
-        x = xx[i]
-        y = yy[i]
+        # widen before multiplying: int16 * int16 wraps under NumPy semantics (py_func)
+        x = int64(xx[i])
+        y = int64(yy[i])
 
         if x != nodata:
             Sx += x
